@@ -487,18 +487,16 @@ def run(ctx):
                 common = ["--avoid-known"]
                 jobs.append(((automata[kind], kind, fl, cap, "cover", []), {}))
                 jobs.append(((automata[kind], kind, fl, cap, "paths", common + ["--merge", "--depth", 6, "--budget", budget]), {}))
-                if kind == "slotmap":
-                    # a second enumeration without insert_at: histories that stay clear of the claim_index defect
-                    jobs.append(((automata[kind], kind, fl, cap, "paths",
-                                  common + ["--merge", "--depth", 6, "--budget", budget, "--exclude", "insert_at"]), {}))
                 if not quick:
-                    for n, excl in enumerate(([], ["insert_at"]) if kind == "slotmap" else ([],)):
+                    # (the claim_index defect of the slot map is repaired - f225b0a - so there is no longer a second
+                    # family of runs that stays clear of insert_at)
+                    for n, excl in enumerate(([],)):
                         o = common + ["--walks", 12, "--steps", 10000] + (["--exclude", ",".join(excl)] if excl else [])
                         jobs.append(((automata[kind], kind, fl, cap, "random", o), {"salt": 100 + n}))
                 # recorded walks for the impl -> spec direction
                 tf = ctx.path("traces", f"{kind}-{fl}-{cap}.ndjson")
                 walks, steps = (3, 60) if quick else (4, 150)
-                o = common + ["--walks", walks, "--steps", steps, "--trace-out", tf] + (["--exclude", "insert_at"] if kind == "slotmap" else [])
+                o = common + ["--walks", walks, "--steps", steps, "--trace-out", tf] 
                 jobs.append(((automata[kind], kind, fl, cap, "random", o), {"salt": 7}))
                 trace_jobs.setdefault(kind, []).append((tf, walks))
     summaries = run_jobs(ctx, jobs, workers=8)
